@@ -93,3 +93,28 @@ Fixpoint well_escaped_from (esc : bool) (t : list N) : bool :=
               else well_escaped_from false r
   end.
 Definition well_escaped (t : list N) : bool := well_escaped_from false t.
+
+(* ------------------------------------------------------------------ CATEGORIES through a content line (C07) *)
+(* The item separator as a symbol of its own: the first number that is not a code point, so that "the items
+   are Python strings" is all that keeps it out of them.  join(",", map escape_char items) is then the chain
+   "escape_char, then SEP -> comma" applied to the items joined by SEP. *)
+Definition SEP : N := 1114112.
+Definition sep_stage : chain := [([SEP], [44])].
+Definition cat_chain : chain :=
+  escape_char_chain ++ sep_stage ++ escape_string_chain ++ unescape_string_chain ++ unescape_char_chain.
+Definition cat_spec_chain : chain := norm_chain ++ sep_stage.
+Definition forb_cat : list (list N) := forb_line ++ [[92; SEP]].
+Definition cat_crit := crit_of cat_chain cat_spec_chain forb_cat.
+Definition cat_explore := explore cat_chain cat_spec_chain forb_cat cat_crit (40 * 1000).
+Definition cat_cert : cert := cert_of cat_chain cat_spec_chain forb_cat cat_crit (40 * 1000).
+
+Definition ends_bs (s : list N) : bool := match rev s with 92 :: _ => true | _ => false end.
+Definition cat_item_ok (s : list N) : bool :=
+  line_safe s && negb (mem_chr 44 s) && negb (mem_chr SEP s).
+(* every item is line-safe, comma-free and a string; none but the last ends in a backslash *)
+Fixpoint cat_items_ok (items : list (list N)) : bool :=
+  match items with
+  | [] => false
+  | [x] => cat_item_ok x
+  | x :: r => cat_item_ok x && negb (ends_bs x) && cat_items_ok r
+  end.
